@@ -8,6 +8,7 @@ PYVC_TB = ("pyvc (our VC generator; python-semantics assumptions DESIGN §3.6), 
 BOUNDED_TB = "pandas 3.0.5 / polars 1.44 / sqlite3 3.40 as installed; reference oracles written from the property statement and documentation; scope sizes in the evidence"
 
 P = {}
+HYB = "hybrid: "
 def add(pid, cat, text, note, technique, design):
     P[pid] = dict(cat=cat, text=text, note=note, technique=technique, design=design)
 
@@ -17,25 +18,24 @@ add("C03", "exploration", "bounded stand-in only: contract `not raises ⇒ frame
     BOUNDED_TB, "run-time contract on the real function over an enumerated small scope (bounded stand-in, not proved)", "§5 C03")
 add("C06", "proof", "the merge obligation `ext(merged,T) = ext(ops2, ext(ops1,T))` for all assignment maps and tables is discharged by z3 from the real body of try_to_merge_ops (6 paths), with finite-scope refutation + native replay when it fails; builder forwarding / collapsing obligations as listed in the evidence.",
     PYVC_TB + "; ghost semantics: simultaneous-assignment extend, ev(e,T) depends only on cols(e) ∪ window columns (frame axiom)", "contract-based deductive verification: VCs generated from the real AST, discharged by z3/cvc5; counter-models replayed natively", "§5 C06")
-add("C08", "exploration", "bounded stand-in only: contract `set(result.columns) = set(op.column_names)` (and order after select_columns) on every _X_step of both executors and on read_query, at every node of every enumerated pipeline.",
-    BOUNDED_TB, "run-time contract on the real functions over an enumerated small scope (bounded stand-in, not proved)", "§5 C08")
-add("C18", "other", "bounded: permutation / re-indexing invariance and order_rows sortedness+limit checked at run time on the real executors over the enumerated corpus (all permutations of ≤4 rows). Glue obligations (sort/limit arguments) are listed as not yet proved.",
+add("C08", "other", HYB + "PROVED for all inputs: Pandas and Polars _table_step always narrow/order the input to the declared columns (eager or lazy, extra or permuted input columns), _select_columns_step and _rename_columns_step hand the library exactly the node's arguments; BOUNDED: declared columns = returned columns at every node of every enumerated pipeline on Pandas, Polars, SQLite.",
+    PYVC_TB + "; frame-library calls under assumed contracts; " + BOUNDED_TB, "contract-based deductive verification of the column-shaping glue (VCs from the real AST, z3) + run-time contracts over an enumerated scope", "§5 C08")
+add("C18", "other", HYB + "PROVED: SQL ORDER BY/DESC/LIMIT text (limit=0 included) and the arguments the Pandas and Polars order_rows steps hand to sort/head. BOUNDED: permutation / re-indexing invariance and order_rows sortedness+limit checked at run time on the real executors over the enumerated corpus (all permutations of ≤4 rows). Glue obligations (sort/limit arguments) are listed as not yet proved.",
     BOUNDED_TB, "run-time contract over an enumerated small scope (bounded stand-in); no obligation proved for this property", "§5 C18")
-add("C19", "other", "bounded: deep snapshots of caller frames (values, dtypes, columns, index) before/after eval/transform/ex/>> on Pandas and Polars over the enumerated corpus; repeatability. Ownership obligations not yet proved.",
+add("C19", "other", HYB + "PROVED: Pandas _table_step returns an owned copy on every path; no replace_leaves modifies the node it rebuilds (10 classes). BOUNDED: deep snapshots of caller frames (values, dtypes, columns, index) before/after eval/transform/ex/>> on Pandas and Polars over the enumerated corpus; repeatability. Ownership obligations not yet proved.",
     BOUNDED_TB, "run-time contract over an enumerated small scope (bounded stand-in); no obligation proved for this property", "§5 C19")
 add("C23", "proof", "every ensures clause and both loop invariants of connected_components are discharged by z3 for all edge lists (unbounded): the blocks are an equivalence containing every edge, finer than ANY equivalence containing the edges, each edge is labelled with the least vertex of its block, equal labels ⇔ same block. A bounded run against a BFS reference rides along.",
     PYVC_TB + "; vertices as mathematical integers; 'finest equivalence containing the edges = connected components' is a paper argument", "contract-based deductive verification: loop invariants + ghost equivalence, VCs from the real AST, z3", "§5 C23")
 add("C24", "proof", "16 targets of OrderedSet.py (constructor, add, discard, update, copy, len, contains, iter, <=, >=, ordered_union/intersect/diff) proved against the abstraction (member set, injective insertion stamps): 130 obligations incl. loop invariants with the ghost first-occurrence map. Inherited MutableSet mixins and __lt__/__gt__/union are only in the bounded ride-along (all op sequences ≤3/4).",
     PYVC_TB + "; OrderedDict iteration = insertion order; update proved for 0,1,2 iterables", "contract-based deductive verification: representation invariant + loop invariants, VCs from the real AST, z3", "§5 C24")
 
-HYB = "hybrid: "
 add("C04", "other", "bounded: every SQL formatting/optimisation option combination (2^4 x 3 indents x extend-merge on/off on SQLite; PostgreSQL text with CTE elimination on the sqlite3 surrogate) must return the same table as the default options, on the enumerated corpus plus DAGs that share a sub-pipeline. No obligation proved yet for this property.",
     BOUNDED_TB + "; PostgreSQL dialect text executed on sqlite3 as a labelled surrogate", "run-time contract over an enumerated small scope (bounded stand-in); no obligation proved", "§5 C04")
 add("C05", "other", "bounded: every catalogued (method, backend) pair marked supported (Pandas, SQLite; Polars when it returns) against doc_meaning reference functions written from the Term docstrings, over an operand grid incl. nulls. The 3VL proofs of the SQL formatters are not built yet.",
     BOUNDED_TB + "; PostgreSQL column of the catalogue not executed", "run-time contract over an enumerated operand grid (bounded stand-in); no obligation proved", "§5 C05")
 add("C07", "other", HYB + "PROVED for all inputs: every replace_leaves (10 node classes) rebuilds its node from the replaced sources and every stored constructor argument, binding the builders' real signatures; BOUNDED: the four composition routes, associativity (by result) and dom/cod on the real code over enumerated pairs/triples.",
     PYVC_TB + "; " + BOUNDED_TB, "contract-based deductive verification of the rebuild obligations (VCs from the real AST, z3) + run-time contracts over an enumerated scope for the engine-dependent part", "§5 C07")
-add("C09", "other", "bounded: row counts of project / windowed extend against distinct key tuples of the materialised input (null = a key of its own, empty inputs, outputs overwritten or dropped later) on Pandas, Polars, SQLite. The term-count obligation on project_to_near_sql is not built yet.",
+add("C09", "other", HYB + "PROVED: Pandas _select_rows_step returns a fresh index-free copy of the selected rows (what a following windowed extend relies on). BOUNDED: row counts of project / windowed extend against distinct key tuples of the materialised input (null = a key of its own, empty inputs, outputs overwritten or dropped later) on Pandas, Polars, SQLite. The term-count obligation on project_to_near_sql is not built yet.",
     BOUNDED_TB, "run-time contract over an enumerated small scope (bounded stand-in); no obligation proved", "§5 C09")
 add("C10", "proof", "for each of the 13 node classes: need_i(N,U) ⊆ columns_used_from_sources(U)[i] ⊆ columns(source_i) and one entry per source, for all nodes and all requested sets (77 obligations incl. two accumulation-loop invariants). The DAG-wide fixpoint and the tie of `need` to the executors are bounded (perturb every unreported column; narrow the descriptions).",
     PYVC_TB + "; need_i is a spec function from the operator documentation; constructor facts as preconditions", "contract-based deductive verification (VCs from the real AST, z3) with a bounded perturbation ride-along", "§5 C10")
@@ -49,7 +49,7 @@ add("C14", "other", "bounded: all strings up to the stated length over a special
     BOUNDED_TB + "; dialect lexers written from the vendors' lexical documentation", "run-time contract over an enumerated small scope (bounded stand-in); no obligation proved", "§5 C14")
 add("C15", "exploration", "bounded stand-in only: renaming one column/table at a time to every internal name harvested from the current source, over the operator-pair corpus on Pandas, Polars, SQLite.",
     BOUNDED_TB, "run-time contract over an enumerated small scope (bounded stand-in, not proved)", "§5 C15")
-add("C16", "other", "bounded: join type x key specification x all small table pairs (null and duplicate keys) on Pandas, Polars, SQLiteModel (emulated right/full) and native RIGHT/FULL text, against a reference join and a hand-written native SQL join. The key-swap obligation of the SQLite right-join emulation is not built as a proof (the defect itself was fixed).",
+add("C16", "other", HYB + "PROVED: the SQLite right-join emulation hands the generic translator a LEFT join with sources AND keys swapped, left_is_first=False, caller's node untouched. BOUNDED: join type x key specification x all small table pairs (null and duplicate keys) on Pandas, Polars, SQLiteModel (emulated right/full) and native RIGHT/FULL text, against a reference join and a hand-written native SQL join. The key-swap obligation of the SQLite right-join emulation is not built as a proof (the defect itself was fixed).",
     BOUNDED_TB, "run-time contract over an enumerated small scope (bounded stand-in); no obligation proved", "§5 C16")
 add("C17", "exploration", "bounded stand-in only: inverse / compose / >> laws and Pandas≡Polars for all small strict control tables and conforming data tables.",
     BOUNDED_TB, "run-time contract over an enumerated small scope (bounded stand-in, not proved)", "§5 C17")
